@@ -21,7 +21,7 @@ def wchoice(rng, table):
     return table[-1][0]
 
 
-def swarm(rng, focus):
+def swarm(rng, focus, tier='quick'):
     """per-run configuration (swarm style): sizes, enabled classes, rates"""
     pool = list(INT_NODES) if rng.random() < 0.7 else list(STR_NODES)
     if focus in ('C09', 'C10', 'C18', 'C11') and rng.random() < 0.25:
@@ -38,6 +38,9 @@ def swarm(rng, focus):
     for c in SPAN_CLASSES:
         if rng.random() < 0.25:
             cfg['off'].append(c)
+    if tier == 'thorough' and rng.random() < 0.3:
+        cfg['steps'] = rng.randint(30, 70)          # longer histories
+        cfg['horizon'] = rng.randint(10, 20)
     cfg['p_fault'] = rng.choice([0.0, 0.05, 0.15, 0.3])
     cfg['p_bulk'] = rng.choice([0.0, 0.1, 0.25])
     cfg['p_node'] = rng.choice([0.0, 0.05, 0.15])
